@@ -170,6 +170,7 @@ type wireExec struct {
 	cast   cast
 	toks   []*wireTok
 	ledger map[string]map[string]bool // issuer DID -> signed contents
+	signed map[string]bool            // canonical encodings of every SigPayload an honest principal signed
 }
 
 func hasIntegralFloat(v Val) bool {
@@ -265,7 +266,7 @@ func specHasIntegralFloat(s TokSpec) bool {
 
 func execWire(t *testing.T, pl Plan, seed uint64, o *Outcome) {
 	p := pl.(*WirePlan)
-	e := &wireExec{t: t, o: o, p: p, seed: seed, ledger: map[string]map[string]bool{}}
+	e := &wireExec{t: t, o: o, p: p, seed: seed, ledger: map[string]map[string]bool{}, signed: map[string]bool{}}
 	for _, c := range p.Cast {
 		e.cast = append(e.cast, normPrincipal(c))
 	}
@@ -350,6 +351,9 @@ func (e *wireExec) construct(i int, ts TokSpec) {
 		e.ledger[w.issuer] = map[string]bool{}
 	}
 	e.ledger[w.issuer][w.content] = true
+	if env, err := openEnvelope(w.cbor); err == nil {
+		e.signed[string(env.sp.Encode())] = true
+	}
 	e.toks[i] = w
 	o.Logf("token %d %s alg=%s cbor=%d json=%d", i, ts.Kind, alg, len(w.cbor), len(w.json))
 }
@@ -616,11 +620,20 @@ func (e *wireExec) conservation(acc []accepted, orig *wireTok, mutant []byte, ki
 			o.Violate("C06", "forged-content-accepted", fmt.Sprintf("%s accepted a %s mutant (%s) whose content was never signed by its issuer: %s", a.dec, kindOfMutation, class, diffRec(recOf(orig.obj), rec)), map[string]string{"mutation": kindOfMutation, "alg": orig.alg})
 			continue
 		}
-		// same signed content under other bytes: canonicity (C08)
 		ref := orig.cbor
 		if codec == "json" {
 			continue // DAG-JSON text is not content-addressed
 		}
+		// what was accepted must be, header and tag included, a SigPayload that was signed:
+		// the harness takes the accepted bytes apart itself and compares the canonical form
+		// of their signed part with the ledger of signed bytes
+		if env, err := openEnvelope(mutant); err == nil {
+			if !e.signed[string(semanticCanon(env.sp).Encode())] {
+				o.Violate("C06", "unsigned-envelope-part-accepted", fmt.Sprintf("%s accepted a %s mutant (%s): the payload fields are as signed, but the signed part as a whole (varsig header, tag, entries) was never signed in this form", a.dec, kindOfMutation, class), map[string]string{"mutation": kindOfMutation, "alg": orig.alg})
+				continue
+			}
+		}
+		// same signed content under other bytes: canonicity (C08)
 		// only the decoders that report a CID are bound by the canonicity clause
 		if !bytes.Equal(mutant, ref) && content == orig.content && strings.Contains(a.dec, "FromSealed") {
 			o.Eval("C08")
@@ -967,7 +980,7 @@ func (e *wireExec) sigStep(s *XStep, w *wireTok, env *envelope) {
 			}
 		}
 	case "foreign_header": // header of another algorithm
-		hdrs := map[string][]byte{"ed25519": {0x34, 0xed, 0x01, 0x71}, "rsa": {0x34, 0x85, 0x24, 0x12, 0x80, 0x02, 0x71}, "secp256k1": {0x34, 0xe7, 0x01, 0x12, 0x71}, "ecdsa": {0x34, 0x80, 0x26, 0x12, 0x71}}
+		hdrs := map[string][]byte{"ed25519": {0x34, 0xed, 0x01, 0x71}, "rsa": {0x34, 0x85, 0x24, 0x12, 0x80, 0x02, 0x71}, "secp256k1": {0x34, 0xe7, 0x01, 0x12, 0x71}, "ecdsa": {0x34, 0x80, 0xa4, 0xc0, 0x06, 0x12, 0x71}}
 		names := []string{"ed25519", "rsa", "secp256k1", "ecdsa"}
 		m.sp.MapSet("h", cbBytes(hdrs[names[s.Val%4]]))
 	case "unknown_header":
@@ -1291,7 +1304,7 @@ func (e *wireExec) byzStep(s *XStep, w *wireTok, env *envelope) {
 		// null is tolerated for optional / nullable fields; every other wrong kind must be rejected
 		mustReject = to != "null" || requiredField(kind, f)
 	case "range":
-		big := []*CB{cbUint(1 << 53), cbNint(1 << 53), cbUint(1<<63 - 1), cbUint(1 << 63), cbUint(math.MaxUint64), cbNint(math.MaxUint64), cbNint(1 << 63)}[s.Val%7]
+		big := []*CB{cbUint(1 << 53), cbNint(1 << 53), cbUint(1<<63 - 1), cbUint(1 << 63), cbUint(math.MaxUint64), cbNint(math.MaxUint64), cbNint(1 << 63), cbNint(1<<53 - 1)}[s.Val%8]
 		switch f {
 		case "nbf", "exp", "iat":
 			pl.MapSet(f, big)
@@ -1300,9 +1313,22 @@ func (e *wireExec) byzStep(s *XStep, w *wireTok, env *envelope) {
 			if a == nil || a.Major != 5 {
 				return
 			}
-			a.MapSet("huge", cbArray(cbMap(cbText("v"), big)))
+			switch s.Val / 8 % 4 {
+			case 0:
+				a.MapSet("huge", cbArray(cbMap(cbText("v"), big)))
+			case 1:
+				a.MapSet("huge", big) // top level
+			case 2:
+				a.MapSet("huge", cbArray(cbInt(1), cbInt(2), big)) // not the first element of a list
+			default:
+				a.MapSet("huge", cbMap(cbText("a"), cbInt(1), cbText("b"), cbMap(cbText("c"), cbArray(cbArray(big)))))
+			}
 		case "pol":
-			pl.MapSet("pol", cbArray(cbArray(cbText("=="), cbText(".a"), big)))
+			if s.Val/8%2 == 0 {
+				pl.MapSet("pol", cbArray(cbArray(cbText("=="), cbText(".a"), big)))
+			} else {
+				pl.MapSet("pol", cbArray(cbArray(cbText("=="), cbText(".b"), cbInt(1)), cbArray(cbText("and"), cbArray(cbArray(cbText("any"), cbText(".l"), cbArray(cbText(">"), cbText("."), cbArray(cbInt(0), big)))))))
+			}
 		case "meta":
 			pl.MapSet("meta", cbMap(cbText("huge"), big))
 			mustReject = false // metadata integers are not bounded by the property
@@ -1325,8 +1351,8 @@ func (e *wireExec) byzStep(s *XStep, w *wireTok, env *envelope) {
 		desc = fmt.Sprintf("cmd %q", c)
 	case "other_tag":
 		// the payload under the other type's tag, or an unknown tag
-		tags := []string{tagDlg, tagInv, "ucan/zzz@1.0.0", "ucan/"}
-		nt := tags[s.Val%4]
+		tags := []string{tagDlg, tagInv, "ucan/zzz@1.0.0", "ucan/", m.tag + "x", m.tag[:len(m.tag)-1], "ucan/dlg@1.0.0-rc.2", "UCAN/" + m.tag[5:]}
+		nt := tags[s.Val%len(tags)]
 		if nt == m.tag {
 			return
 		}
@@ -1344,7 +1370,21 @@ func (e *wireExec) byzStep(s *XStep, w *wireTok, env *envelope) {
 		}
 		desc = "payload under tag " + nt
 	case "sp_shape":
-		switch s.Val % 4 {
+		third := func(key string, v *CB) {
+			m.sp.Kids = append(m.sp.Kids, cbText(key), v)
+			m.sp.sortCanonical()
+			desc = fmt.Sprintf("SigPayload with a third entry %q", key)
+		}
+		otherTag, otherPayload := tagInv, cbMap(cbText("iss"), cbText(w.issuer))
+		if m.tag == tagInv {
+			otherTag = tagDlg
+		}
+		if o2 := e.tok(1 - s.Tok); o2 != w && o2.spec.Kind != w.spec.Kind {
+			if env2, err := openEnvelope(o2.cbor); err == nil {
+				otherPayload = env2.payload.Clone() // a complete, valid payload of the other type
+			}
+		}
+		switch s.Val % 10 {
 		case 0:
 			m.sp.MapDel("h")
 			desc = "SigPayload without header"
@@ -1352,12 +1392,21 @@ func (e *wireExec) byzStep(s *XStep, w *wireTok, env *envelope) {
 			m.sp.MapDel(m.tag)
 			desc = "SigPayload without payload"
 		case 2:
-			m.sp.MapSet("x", cbInt(1))
-			desc = "SigPayload with a third entry"
+			third("x", cbInt(1)) // sorts between the header and the tag
+		case 3:
+			third("ucan/zzz@1", cbMap()) // a second, shorter tag
+		case 4:
+			third("zzzzzzzzzzzzzzzzzzzzzzzz", cbInt(1)) // sorts after the tag
+		case 5:
+			third(m.tag+"-extra", cbMap()) // sorts after the tag, looks like a tag
+		case 6:
+			third(otherTag, otherPayload) // one signature over a delegation and an invocation
+		case 7:
+			third("", cbNull()) // sorts before the header
+		case 8:
+			third("g", cbBytes([]byte{0x34})) // one-byte key before "h"
 		default:
-			m.sp.Kids = append(m.sp.Kids, cbText("ucan/zzz@1"), cbMap())
-			m.sp.sortCanonical()
-			desc = "SigPayload with two payloads"
+			third("ucan/zzzzzzzzzzzzzzz", cbMap()) // same length as the tag, bytewise greater
 		}
 		mustReject = true
 	default:
@@ -1385,6 +1434,61 @@ func nestCB(depth int, leaf *CB, wrap func(*CB) *CB) *CB {
 		c = wrap(c)
 	}
 	return c
+}
+
+func b58dec(s string) []byte {
+	num := []byte{0}
+	for i := 0; i < len(s); i++ {
+		d := strings.IndexByte(b58Alphabet, s[i])
+		if d < 0 {
+			return nil
+		}
+		carry := d
+		for j := len(num) - 1; j >= 0; j-- {
+			carry += int(num[j]) * 58
+			num[j] = byte(carry)
+			carry >>= 8
+		}
+		for carry > 0 {
+			num = append([]byte{byte(carry)}, num...)
+			carry >>= 8
+		}
+	}
+	for len(num) > 1 && num[0] == 0 {
+		num = num[1:]
+	}
+	zeros := 0
+	for zeros < len(s) && s[zeros] == '1' {
+		zeros++
+	}
+	return append(make([]byte, zeros), num...)
+}
+
+// realDIDMangled: the genuine did:key bytes of a principal, cut or extended at
+// byte level (cutting the base58 text is not byte-aligned).
+func realDIDMangled(d string, v, at int) string {
+	raw := b58dec(strings.TrimPrefix(d, "did:key:z"))
+	if len(raw) < 3 {
+		return d
+	}
+	pre := 2 // every supported multicodec prefix is a two-byte varint
+	key := raw[pre:]
+	switch v % 5 {
+	case 0: // cut the key material
+		key = key[:at%(len(key)+1)]
+	case 1: // a few bytes only
+		key = key[:at%5%(len(key)+1)]
+	case 2: // extended
+		key = append(append([]byte{}, key...), byte(at), byte(v))
+	case 3: // DER-looking stubs (RSA is the only variable-length key)
+		key = [][]byte{{0x30, 0x82}, {0x30, 0x00}, {0x30, 0x82, 0x01, 0x0a}, {0x30, 0xff, 0x02, 0x02}, {0x30}, {0x30, 0x0a}, {0x02, 0x01}}[at%7]
+	default: // one byte changed
+		key = append([]byte{}, key...)
+		if len(key) > 0 {
+			key[at%len(key)] ^= byte(1 << uint(v%8))
+		}
+	}
+	return "did:key:z" + b58(append(append([]byte{}, raw[:pre]...), key...))
 }
 
 func badDID(alg string, v int) string {
@@ -1493,6 +1597,11 @@ func (e *wireExec) hostileStep(s *XStep, w *wireTok, env *envelope) {
 	case "bad_did":
 		algs := []string{"ed25519", "p256", "p384", "p521", "secp256k1", "rsa", "x25519", "junk"}
 		d := badDID(algs[s.Val%len(algs)], s.At)
+		if s.Depth%2 == 1 {
+			// a real principal's identifier, mangled
+			pr := e.cast[(s.Val/8)%len(e.cast)]
+			d = realDIDMangled(key(pr).id.String(), s.Val, s.At)
+		}
 		f := s.Field
 		if f == "" {
 			f = "aud"
